@@ -108,6 +108,21 @@ def handle (z : St) (args : List String) : Option (St × Proto.Out) :=
     -- export+import / to_memory / save+open: all enumerate the source and re-create with ids
     some (z, mk (dumpStore (copyStore z.g.st)) (dumpSpec z.g)
       (if !z.g.ghost.isEmpty || !z.g.ghostE.isEmpty then "property-set-on-missing-node" else "copy-differs-from-source"))
+  | ["copyadd", _kind, n] => do
+    -- a copy is a database of its own: edges created on it afterwards get fresh ids (its counters
+    -- must sit above every copied id, whatever order the copy was filled in)
+    let n ← n.toNat?
+    let t0 : DriverLpg.St := { z.g with st := copyStore z.g.st }
+    let ids := sortNat t0.st.nodeIds
+    match ids.head?, ids.getLast? with
+    | some a, some b =>
+      let step := fun (acc : Option (DriverLpg.St × List String × List String)) (_ : Nat) => do
+        let (t, ms, ss) ← acc
+        let (t', o) ← DriverLpg.handle t ["ce", toString a, toString b, "0"]
+        pure (t', ms ++ [o.model], ss)
+      let (t, ms, ss) ← (List.range n).foldl step (some (t0, [], []))
+      some (z, mk (joinWith "," ms ++ "|" ++ dumpStore t.st) (joinWith "," ms ++ "|" ++ dumpSpec t) "copy-counter-collides")
+    | _, _ => some (z, { model := "-" })
   | _ => none
 
 end Grafeo.DriverPers
